@@ -1,6 +1,7 @@
 import Fdo.Cbor.Proofs
 import Fdo.Cbor.Fuel
 import Fdo.Cbor.Footprint
+import Fdo.Cbor.TypedSuffix
 import Fdo.Gen.Cbor
 /-
 C12 — CBOR decoding of arbitrary bytes is total, bounded and exact.
@@ -138,6 +139,25 @@ theorem unbacked_claim_rejected (f d : Nat) (b : Bytes) (mt ai arg : Nat) (r0 : 
 of 99 999 items are rejected, and nothing of that size is ever built -/
 example : decode1 [0x9a, 0x00, 0x01, 0x86, 0x9f, 0x9a, 0x00, 0x01, 0x86, 0x9f] = none :=
   unbacked_claim_rejected _ _ _ 4 26 99999 [0x9a, 0x00, 0x01, 0x86, 0x9f] (by decide) (Or.inl ⟨by simp, by decide⟩)
+
+/-! ### every decode target -/
+
+/-- **Exact consumption for every decode target**: whatever Go type is decoded into (any schema of the
+typed model — integers, strings, slices, structs with omitted fields, pointers, maps, `any`, tags, byte-
+wrapped values, raw bytes, certificates, timestamps, COSE headers and keys, …), the stream is left at a
+position inside the input: what remains is the input without a prefix. Nothing is re-read, skipped ahead
+of, or invented. -/
+theorem typed_decode_consumes_prefix (ok : CertOracle) (f d : Nat) (s : Schema) (b : Bytes) (v : Val) (r : Bytes)
+    (h : decodeS ok f d s b = some (v, r)) : ∃ p, b = p ++ r :=
+  decodeS_consumes_prefix ok f d s b v r h
+
+/-- Whole-buffer decoding into any type never succeeds with bytes left over. -/
+theorem typed_unmarshal_no_trailing (ok : CertOracle) (s : Schema) (b : Bytes) (v : Val) (h : unmarshalS ok s b = some v) :
+    decodeS ok (2 * b.length + 64) maxDepth s b = some (v, []) := by
+  unfold unmarshalS at h
+  split at h
+  · rename_i v' heq; simp at h; subst h; exact heq
+  · simp at h
 
 /-- The model's length limit is the constant the code was compiled with (regenerated table). -/
 theorem gen_maxLen_eq : Fdo.Gen.Cbor.maxArrayDecodeLength = maxLen := by decide
